@@ -48,8 +48,45 @@ def _units(sys3, dim):
     return uq.mk_units(sys3, dim)
 
 
+class _Rejected(Exception):
+    """The library refused to build a quantity from this carrier (counted, never reported)."""
+
+
+CARRIER_DTYPE = {"f64": np.float64, "f32": np.float32, "i64": np.int64, "i32": np.int32, "u8": np.uint8,
+                 "i8": np.int8}
+
+
+def _container(carrier, vals):
+    """The same numbers in another container."""
+    if carrier == "list":
+        return [float(v) for v in vals]
+    if carrier == "tuple":
+        return tuple(float(v) for v in vals)
+    if carrier == "pyints":
+        return [int(v) for v in vals]
+    arr = np.array(vals, dtype=CARRIER_DTYPE[carrier])
+    if [F(x.item()) for x in arr] != [F(v) for v in vals]:
+        raise ValueError("numbers %r are not representable in %s" % (vals, carrier))      # checker error
+    return arr
+
+
+def _build_carrier(leaf):
+    cont = _container(leaf["carrier"], leaf["v"])
+    units = _units(tuple(leaf["sys"]), tuple(leaf["dim"]))
+    try:
+        if leaf.get("via", "ctor") == "ctor":
+            return UnitArray(cont, units)
+        a = UnitArray([0.0] * len(leaf["v"]), units)
+        a.value = cont
+        return a
+    except Exception as e:      # noqa: BLE001
+        raise _Rejected("%s: %s" % (type(e).__name__, e))
+
+
 def _build(leaf):
     k = leaf["k"]
+    if "carrier" in leaf:
+        return _build_carrier(leaf)
     if k == "uv":
         return UnitValue(leaf["v"], _units(tuple(leaf["sys"]), tuple(leaf["dim"])))
     if k == "ua":
@@ -85,6 +122,9 @@ def _unit_of(q):
 def _leaf_ref(leaf, obj):
     if leaf["k"] in NK:
         return arith.Num(F(obj))
+    if "carrier" in leaf:       # the quantity means the numbers that were handed over, whatever the container
+        sc = _scale(tuple(leaf["sys"]), tuple(leaf["dim"]))
+        return arith.Qty([F(v) * sc for v in leaf["v"]], leaf["dim"], True, unit=sc)
     return arith.Qty(_si_vals(obj), uq.dim_of(obj.units), leaf["k"] == "ua", unit=_unit_of(obj))
 
 
@@ -129,7 +169,8 @@ def _ev(node, out, flags, prefix=""):
     current stored numbers and units."""
     if "op" not in node:
         obj = node["_obj"] if "_obj" in node else _build(node)
-        return obj, _leaf_ref(node, obj), node["k"], True
+        kind = node["k"] + ("." + node["carrier"] if "carrier" in node else "")
+        return obj, _leaf_ref(node, obj), kind, True
     op = node["op"]
     sub = [_ev(x, out, flags, prefix) for x in node["args"]]
     objs = [s[0] for s in sub]
@@ -271,6 +312,8 @@ def _evaluate(case):
             _ev(case["expr"], out, flags)
         except _Stop:
             pass
+        except _Rejected:
+            flags.append("carrier_rejected")
     except Exception as e:      # noqa: BLE001 - construction of an operand failed, or the checker is wrong
         out.append(("C05:%s:unexpected-exception" % case.get("sub", "case"),
                     "%s: %s (outside an operator call)" % (type(e).__name__, e)))
@@ -759,6 +802,53 @@ def _spaces(tier):
     sp.append(Space("trees: depth 2, (a.b).c and c.(a.b): {+ - * / %%}^2 x kinds {scalar,array,float}^3 (not two "
                     "numbers inside) ; {+ - * / %%} then a comparison on scalars ; then unary -/abs ; then ** "
                     "{2,-1,1/2} ; operands in %d^3 unit systems x 2 dimension assignments" % len(T3), blocks))
+    # (f) carriers: the same numbers handed over in different containers / dtypes
+    f32 = lambda x: float(np.float32(x))      # noqa: E731
+    NUMSETS = {"small": [200, 100, 3], "signed": [100, -128, 3], "mid": [60000, 7, -5],
+               "big": [3000000000, 5, -2], "single": [f32(0.1), f32(2.5e-3), 1.5]}
+    PARTNER_INT = {"small": 2, "signed": 2, "mid": 60000, "big": 4000000000, "single": 3}
+    COMBOS = [("small", c) for c in ("list", "tuple", "pyints", "f64", "f32", "i64", "i32", "u8")] + \
+             [("signed", c) for c in ("list", "pyints", "f64", "i32", "i8")] + \
+             [("mid", c) for c in ("list", "pyints", "f64", "f32", "i64", "i32")] + \
+             [("big", c) for c in ("list", "pyints", "f64", "i64")] + \
+             [("single", c) for c in ("list", "tuple", "f64", "f32")]
+    CDIMS = [(0, 1, 0), (1, -1, 1)]
+    CSYS1 = [si.MIXED[3], si.DEFAULT]
+    CSYS2 = [(si.MIXED[3], si.MIXED[3]), (si.DEFAULT, si.MIXED[0])]
+
+    def cleaf(combo, via, sys3, dim):
+        return {"k": "ua", "v": list(NUMSETS[combo[0]]), "sys": list(sys3), "dim": list(dim),
+                "carrier": combo[1], "via": via}
+
+    def b_car_num(combo, via, op, nk, order, sys3, dim):
+        n = _n("int", PARTNER_INT[combo[0]]) if nk == "int" else _n("float", 2.5)
+        a = cleaf(combo, via, sys3, dim)
+        return {"sub": "carriers", "expr": {"op": op, "args": [a, n] if order == 0 else [n, a]}}
+
+    def b_car_un(combo, via, op, sys3, dim):
+        return {"sub": "carriers", "expr": {"op": op, "args": [cleaf(combo, via, sys3, dim)]}}
+
+    def b_car_q(combo, via, op, pk, order, ss, dim):
+        a = cleaf(combo, via, ss[0], dim)
+        if pk == "uv":
+            q = _q("uv", [float(PARTNER_INT[combo[0]])], ss[1], dim)
+        elif pk == "ua":
+            q = _q("ua", [float(v) for v in NUMSETS[combo[0]]], ss[1], dim)
+        else:
+            q = cleaf(combo, "ctor", ss[1], dim)
+            q["v"] = q["v"][::-1]       # (so that a op q and q op a are different cases)
+        return {"sub": "carriers", "expr": {"op": op, "args": [a, q] if order == 0 else [q, a]}}
+    sp.append(Space("carriers: an array quantity built from the same numbers as list / tuple / list of ints / float64 "
+                    "/ float32 / int64 / int32 / uint8 / int8 ndarray (%d number-set x carrier combinations, numbers "
+                    "that wrap in fixed-width arithmetic), through the constructor and the .value setter, x "
+                    "{+ - * / %% with int and float on either side ; -x, abs ; + - * / %% with a scalar quantity, a "
+                    "list-built array, an array of the same carrier, both orders, same / different systems} x 2 "
+                    "dimensions" % len(COMBOS),
+                    [Block([COMBOS, ["ctor", "setter"], ARITH5, ["int", "float"], [0, 1], CSYS1, CDIMS], b_car_num),
+                     Block([COMBOS, ["ctor", "setter"], ["neg", "abs"], CSYS1, CDIMS], b_car_un),
+                     Block([COMBOS, ["ctor", "setter"], ARITH5, ["uv", "ua", "same"], [0, 1], CSYS2, CDIMS],
+                           b_car_q)]))
+
     # (e) histories on the same operand objects
     HA, HB, HC = ("mm", "ds", "mmol"), ("cm", "s", "cmol"), ("dm", "cs", "dmol")
     TRIPLES = [(HA, HB, HC), (si.DEFAULT, si.MIXED[0], si.MIXED[3])]
@@ -856,7 +946,7 @@ def tree_case(T3, orient, op1, op2, ka, kb, kc, ia, ib, ic, di):
 # ---- enumeration -------------------------------------------------------------------------------------
 
 _SPACES = None
-COUNTED = ("must_raise", "raised_as_specified", "decided_true", "decided_false",
+COUNTED = ("must_raise", "raised_as_specified", "decided_true", "decided_false", "carrier_rejected",
            "result_shares_an_object_with_an_operand")
 
 
